@@ -12,6 +12,7 @@ pub struct WireState {
     pub tag: u32,
     /// Chunks released to the reader. `None` = one injected suspension (read returns Pending once).
     pub inb: VecDeque<Option<Vec<u8>>>,
+    pub head_off: usize,
     pub closed: bool,
     pub read_err: bool,
     /// Total bytes handed to the connection so far.
@@ -19,6 +20,8 @@ pub struct WireState {
     /// Every read: (destination address, destination capacity, bytes copied).
     pub fills: Vec<(usize, usize, usize)>,
     pub log_reads: bool,
+    /// Do not log individual chunks (the driver logs the accumulated count instead).
+    pub quiet_chunks: bool,
     pub out: Vec<u8>,
     /// Lengths of the individual write calls.
     pub writes: Vec<usize>,
@@ -31,6 +34,8 @@ pub struct WireState {
     pub read_dropped: bool,
     pub write_dropped: bool,
     pub log_writes: bool,
+    /// Log every successful write call with the documents it carried (C02).
+    pub log_write_docs: bool,
 }
 
 pub type Wire = Rc<RefCell<WireState>>;
@@ -76,16 +81,20 @@ impl ReadHalf for R {
             let mut w = self.0.borrow_mut();
             let tag = w.tag;
             match w.inb.pop_front() {
-                Some(Some(mut c)) => {
-                    let n = c.len().min(buf.len());
-                    buf[..n].copy_from_slice(&c[..n]);
-                    if n < c.len() {
-                        let rest = c.split_off(n);
-                        w.inb.push_front(Some(rest));
+                Some(Some(c)) => {
+                    // `head_off` bytes of the front chunk were handed over by earlier reads
+                    let off = w.head_off;
+                    let n = (c.len() - off).min(buf.len());
+                    buf[..n].copy_from_slice(&c[off..off + n]);
+                    if off + n < c.len() {
+                        w.head_off = off + n;
+                        w.inb.push_front(Some(c));
+                    } else {
+                        w.head_off = 0;
                     }
                     w.delivered += n;
                     w.fills.push((buf.as_ptr() as usize, buf.len(), n));
-                    if w.log_reads {
+                    if w.log_reads && !w.quiet_chunks {
                         ev(json!({"ev":"chunk","c":tag,"n":n}));
                     }
                     Poll::Ready(Ok(n))
@@ -133,6 +142,16 @@ impl WriteHalf for W {
             }
             w.out.extend_from_slice(buf);
             w.writes.push(buf.len());
+            if w.log_write_docs {
+                let (frames, complete) = split_frames(buf);
+                let ndocs = if complete { frames.len() } else { frames.len() - 1 };
+                let tail = if complete { 0 } else { frames[frames.len() - 1].len() };
+                let docs: Vec<serde_json::Value> = frames[..ndocs]
+                    .iter()
+                    .map(|f| json!({"h": crate::util::fnv(f), "len": f.len()}))
+                    .collect();
+                ev(json!({"ev":"write","c":tag,"n":buf.len(),"docs":docs,"tail":tail}));
+            }
             Poll::Ready(Ok(()))
         })
         .await
